@@ -1639,3 +1639,12 @@ MUTANTS += [
  dict(id='R12-benign-hub-conn-id-renamed', props=['C10', 'C11'], expect='SILENT',
       edits=[('internal/peers/hub.go', '\tfor _, connID := range behind {\n\t\tconnID := connID\n\t\th.enqueueWait(func() *peerConnection { return h.sessions[sessionID][connID] }, env)\n', '\tfor _, id := range behind {\n\t\tid := id\n\t\th.enqueueWait(func() *peerConnection { return h.sessions[sessionID][id] }, env)\n')]),
 ]
+
+# --- R-DEQUEUE false alarm corrected (round 12): skipping a popped receiver whose status is not QUEUED is the same as gone-or-served
+#     where the tree shows that every queue member is QUEUED ---
+MUTANTS += [
+ dict(id='R12-benign-dequeue-only-queued', props=['C12'], expect='SILENT',
+      edits=[(SS, '\t\tif state.Status == ReceiverStatusTransferring {\n\t\t\ts.mu.Unlock()\n\t\t\tcontinue\n\t\t}\n', '\t\tif state.Status != ReceiverStatusQueued {\n\t\t\ts.mu.Unlock()\n\t\t\tcontinue\n\t\t}\n')]),
+ dict(id='R12-dequeue-only-queued-and-join-resets-status', props=['C12'], expect='R-DEQUEUE/dequeue/',
+      edits=[(SS, '\t\tif state.Status == ReceiverStatusTransferring {\n\t\t\ts.mu.Unlock()\n\t\t\tcontinue\n\t\t}\n', '\t\tif state.Status != ReceiverStatusQueued {\n\t\t\ts.mu.Unlock()\n\t\t\tcontinue\n\t\t}\n'), (SS, '\tif state.Status != ReceiverStatusQueued && state.Status != ReceiverStatusTransferring {\n\t\tstate.Status = ReceiverStatusJoined\n\t}\n', '\tstate.Status = ReceiverStatusJoined\n')]),
+]
